@@ -86,8 +86,14 @@ func (w *sessionResponseWriter) WriteHeader(statusCode int) {
 		// Multiple calls ot WriteHeader are no-ops
 		return
 	}
-	w.wroteHeader = true
 	header := w.Header()
+	if statusCode >= 100 && statusCode <= 199 && statusCode != http.StatusSwitchingProtocols {
+		// Interim response: the final header, with the cookies to intercept, is still to come.
+		header.Del("Set-Cookie")
+		w.wrapped.WriteHeader(statusCode)
+		return
+	}
+	w.wroteHeader = true
 	cookiesToAdd := (&http.Response{Header: header}).Cookies()
 	header.Del("Set-Cookie")
 	if w.sessionID == "" {
